@@ -234,10 +234,6 @@ def _locate_droplets_in_mask_spherical(mask: ScalarField) -> Emulsion:
         return Emulsion.empty(example_drop)
 
 
-class _SpanningDropletSignal(RuntimeError):
-    """Exception signaling that an untypical droplet spanning the system was found."""
-
-
 def _locate_droplets_in_mask_cylindrical_single(
     grid: CylindricalSymGrid, mask: np.ndarray
 ) -> Emulsion:
@@ -270,8 +266,11 @@ def _locate_droplets_in_mask_cylindrical_single(
                 and slices[1].stop == mask.shape[1]
             ):
                 # the "droplet" extends the entire z-axis of the periodically padded
-                # image, i.e., it wraps around the periodic axis
-                raise _SpanningDropletSignal
+                # image, i.e., it wraps around the periodic axis. Only the part in the
+                # central copy of the image is kept to obtain the correct volume
+                pad = (mask.shape[1] - grid.shape[1]) // 2
+                for part in (labels[:, :pad], labels[:, mask.shape[1] - pad :]):
+                    part[part == index] = 0
         else:
             _logger.warning("Found object not located on symmetry axis")
 
@@ -327,28 +326,24 @@ def _locate_droplets_in_mask_cylindrical(mask: ScalarField) -> Emulsion:
         assert mask_padded.shape == (dim_r, 3 * dim_z)
 
         # locate droplets in the extended image
-        try:
-            candidates = _locate_droplets_in_mask_cylindrical_single(grid, mask_padded)
-        except _SpanningDropletSignal:
-            pass
-        else:
-            _logger.info("Found %d droplet candidates.", len(candidates))
+        candidates = _locate_droplets_in_mask_cylindrical_single(grid, mask_padded)
+        _logger.info("Found %d droplet candidates.", len(candidates))
 
-            # keep droplets that are inside the central area
-            droplets = Emulsion()
-            for droplet in candidates:
-                # correct for the additional padding of the array
-                droplet.position[2] -= grid.length
-                # check whether the droplet lies in the original box (whose upper boundary
-                # is excluded since it is identified with the lower boundary)
-                if z_min <= droplet.position[2] < z_max:
-                    droplets.append(droplet)
+        # keep droplets that are inside the central area
+        droplets = Emulsion()
+        for droplet in candidates:
+            # correct for the additional padding of the array
+            droplet.position[2] -= grid.length
+            # check whether the droplet lies in the original box (whose upper boundary
+            # is excluded since it is identified with the lower boundary)
+            if z_min <= droplet.position[2] < z_max:
+                droplets.append(droplet)
 
-            _logger.info("Kept %d central droplets.", len(droplets))
+        _logger.info("Kept %d central droplets.", len(droplets))
 
-            # filter overlapping droplets (e.g. due to duplicates)
-            droplets.remove_overlapping()
-            return droplets
+        # filter overlapping droplets (e.g. due to duplicates)
+        droplets.remove_overlapping()
+        return droplets
 
     # simply locate droplets in the mask
     droplets = _locate_droplets_in_mask_cylindrical_single(mask.grid, mask.data)
